@@ -121,8 +121,9 @@ IdsAlts(k) ==
     [] OTHER -> {}
 
 KeyAlts(f) ==
-  CASE Family(f) = "cmp" -> {"nil", "noshare", "nopaillier", "emptypub", "noown"}
-    [] Family(f) = "frost" -> {"nil", "noshare", "nopub", "emptypub", "noown"}
+  \* "nilentry": the table has an entry for a peer, but the entry is nil
+  CASE Family(f) = "cmp" -> {"nil", "noshare", "nopaillier", "emptypub", "noown", "nilentry"}
+    [] Family(f) = "frost" -> {"nil", "noshare", "nopub", "emptypub", "noown", "nilentry"}
     [] Family(f) = "doerner" -> {"nil", "noshare", "nopub", "nosetup"}
     [] OTHER -> {}
 
